@@ -3,7 +3,7 @@
 
 use std::collections::VecDeque;
 
-use crate::ops::{HRef, ObjId, Op, WRef};
+use crate::ops::{HRef, ObjId, Op, WRef, When};
 use crate::rng::Rng;
 use crate::world::{Class, St, World};
 
@@ -577,4 +577,468 @@ impl RandGen {
             HRef::S(o, _) => reach[*o as usize],
         }
     }
+}
+
+// ------------------------------------------------------------------------------------------------
+// G-family: structured shapes
+
+pub struct Builder {
+    pub ops: Vec<Op>,
+    pub next_slot: usize,
+    pub next_w: usize,
+    pub out_len: Vec<usize>,
+    pub n: usize,
+}
+
+impl Builder {
+    pub fn new(n: usize) -> Builder {
+        let mut b = Builder { ops: vec![], next_slot: 0, next_w: 0, out_len: vec![0; n], n };
+        for _ in 0..n {
+            b.ops.push(Op::New);
+            b.next_slot += 1;
+        }
+        b
+    }
+    /// object o stores a new handle to t; `rec`: 0 unrecorded, 1 adopt-then-store, 2 store-then-adopt
+    pub fn edge(&mut self, o: usize, t: usize, rec: u8) {
+        self.ops.push(Op::Clone(HRef::P(t)));
+        let s = self.next_slot;
+        self.next_slot += 1;
+        match rec {
+            0 => self.ops.push(Op::Store(o as ObjId, s)),
+            1 => {
+                self.ops.push(Op::Adopt(HRef::P(o), HRef::P(s)));
+                self.ops.push(Op::Store(o as ObjId, s));
+            }
+            _ => {
+                self.ops.push(Op::Store(o as ObjId, s));
+                self.ops.push(Op::Adopt(HRef::P(o), HRef::S(o as ObjId, self.out_len[o])));
+            }
+        }
+        self.out_len[o] += 1;
+    }
+    /// self-handle recorded through the very same handle
+    pub fn loopback(&mut self, o: usize) {
+        self.ops.push(Op::Clone(HRef::P(o)));
+        let s = self.next_slot;
+        self.next_slot += 1;
+        self.ops.push(Op::Store(o as ObjId, s));
+        let r = HRef::S(o as ObjId, self.out_len[o]);
+        self.ops.push(Op::Adopt(r, r));
+        self.out_len[o] += 1;
+    }
+    pub fn weak_outside(&mut self, t: usize) {
+        self.ops.push(Op::Downgrade(HRef::P(t)));
+        self.next_w += 1;
+    }
+    pub fn weak_inside(&mut self, o: usize, t: usize) {
+        self.ops.push(Op::Downgrade(HRef::P(t)));
+        self.ops.push(Op::StoreWeak(o as ObjId, self.next_w));
+        self.next_w += 1;
+    }
+}
+
+pub const FAMILY_KINDS: usize = 9;
+
+/// Structured shapes; `idx` selects kind, size, multiplicities, Weak placement and the drop order
+/// (in particular which outside handle is dropped last). Returns (ops, description).
+pub fn family_ops(idx: u64, seed: u64, class: Class, max_n: usize) -> (Vec<Op>, String) {
+    let mut rng = Rng::new(crate::rng::mix(seed, idx));
+    let kind = (idx % FAMILY_KINDS as u64) as usize;
+    let full = class == Class::Full;
+    let max_n = max_n.max(3);
+    let pick_n = |rng: &mut Rng, lo: usize, hi: usize| lo + rng.below(hi.min(max_n).max(lo) - lo + 1);
+    let mut rec = |rng: &mut Rng| -> u8 {
+        if full || rng.chance(17, 20) {
+            1 + rng.below(2) as u8
+        } else {
+            0
+        }
+    };
+    let (mut b, desc) = match kind {
+        0 => {
+            let n = pick_n(&mut rng, 2, 12);
+            let mut b = Builder::new(n);
+            for i in 0..n {
+                let r = rec(&mut rng);
+                b.edge(i, (i + 1) % n, r);
+            }
+            (b, format!("ring({})", n))
+        }
+        1 => {
+            let n = pick_n(&mut rng, 3, 10);
+            let mut b = Builder::new(n);
+            for i in 0..n {
+                let r = rec(&mut rng);
+                b.edge(i, (i + 1) % n, r);
+            }
+            let chords = 1 + rng.below(n);
+            for _ in 0..chords {
+                let a = rng.below(n);
+                let c = rng.below(n);
+                let r = rec(&mut rng);
+                b.edge(a, c, r);
+            }
+            (b, format!("ring({})+{}chords", n, chords))
+        }
+        2 => {
+            let n = pick_n(&mut rng, 2, 6);
+            let mut b = Builder::new(n);
+            let selfloops = rng.chance(1, 3);
+            for i in 0..n {
+                for j in 0..n {
+                    if i != j || selfloops {
+                        let r = rec(&mut rng);
+                        b.edge(i, j, r);
+                    }
+                }
+            }
+            (b, format!("clique({}{})", n, if selfloops { ",self" } else { "" }))
+        }
+        3 => {
+            let n = pick_n(&mut rng, 2, 10);
+            let mut b = Builder::new(n);
+            for i in 0..n - 1 {
+                let r = rec(&mut rng);
+                b.edge(i, i + 1, r);
+                let r = rec(&mut rng);
+                b.edge(i + 1, i, r);
+            }
+            (b, format!("dll({})", n))
+        }
+        4 => {
+            let n = pick_n(&mut rng, 3, 9);
+            let mut b = Builder::new(n);
+            for i in 1..n {
+                let r = rec(&mut rng);
+                b.edge(0, i, r);
+                if rng.chance(3, 4) {
+                    let r = rec(&mut rng);
+                    b.edge(i, 0, r);
+                }
+            }
+            (b, format!("star({})", n))
+        }
+        5 => {
+            // cycle with acyclic tails, some tails shared by several members
+            let k = pick_n(&mut rng, 2, 5);
+            let tails = 1 + rng.below(3);
+            let n = k + tails;
+            let mut b = Builder::new(n);
+            for i in 0..k {
+                let r = rec(&mut rng);
+                b.edge(i, (i + 1) % k, r);
+            }
+            for t in 0..tails {
+                let tail = k + t;
+                let owners = 1 + rng.below(k);
+                for _ in 0..owners {
+                    let o = rng.below(k);
+                    let r = rec(&mut rng);
+                    b.edge(o, tail, r);
+                }
+                if t > 0 && rng.chance(1, 2) {
+                    let r = rec(&mut rng);
+                    b.edge(k + t - 1, tail, r);
+                }
+            }
+            (b, format!("cycle({})+{}tails", k, tails))
+        }
+        6 => {
+            // two or three cycles sharing members
+            let a = pick_n(&mut rng, 2, 4);
+            let c = pick_n(&mut rng, 2, 4);
+            let third = rng.chance(1, 3);
+            let n = a + c - 1 + if third { 2 } else { 0 };
+            let mut b = Builder::new(n);
+            for i in 0..a {
+                let r = rec(&mut rng);
+                b.edge(i, (i + 1) % a, r);
+            }
+            // second cycle: 0, a, a+1, ..., a+c-2
+            let mut cyc = vec![0usize];
+            for i in 0..c - 1 {
+                cyc.push(a + i);
+            }
+            for i in 0..cyc.len() {
+                let r = rec(&mut rng);
+                b.edge(cyc[i], cyc[(i + 1) % cyc.len()], r);
+            }
+            if third {
+                let x = a + c - 1;
+                let cyc3 = [1 % a, x, x + 1];
+                for i in 0..3 {
+                    let r = rec(&mut rng);
+                    b.edge(cyc3[i], cyc3[(i + 1) % 3], r);
+                }
+            }
+            (b, format!("shared-cycles({},{}{})", a, c, if third { ",3" } else { "" }))
+        }
+        7 => {
+            // parallel edges with unequal in/out multiplicity
+            let n = pick_n(&mut rng, 2, 6);
+            let mut b = Builder::new(n);
+            for i in 0..n {
+                let m = 1 + rng.below(4);
+                for _ in 0..m {
+                    let r = rec(&mut rng);
+                    b.edge(i, (i + 1) % n, r);
+                }
+                if rng.chance(1, 3) {
+                    let t = rng.below(n);
+                    let m = 1 + rng.below(3);
+                    for _ in 0..m {
+                        let r = rec(&mut rng);
+                        b.edge(i, t, r);
+                    }
+                }
+            }
+            (b, format!("multiring({})", n))
+        }
+        _ => {
+            // self-adopters mixed into a ring
+            let n = pick_n(&mut rng, 2, 8);
+            let mut b = Builder::new(n);
+            for i in 0..n {
+                let r = rec(&mut rng);
+                b.edge(i, (i + 1) % n, r);
+                match rng.below(4) {
+                    0 => {
+                        let r = rec(&mut rng);
+                        b.edge(i, i, r);
+                    }
+                    1 if !full => b.loopback(i),
+                    _ => {}
+                }
+            }
+            (b, format!("ring({})+self", n))
+        }
+    };
+    let n = b.n;
+    // Weak placement
+    let wmode = rng.below(4);
+    if wmode & 1 != 0 {
+        for i in 0..n {
+            b.weak_outside(i);
+        }
+    }
+    if wmode & 2 != 0 {
+        for i in 0..n {
+            b.weak_inside(i, (i + 1) % n);
+            if rng.chance(1, 2) {
+                b.weak_inside(i, i);
+            }
+        }
+    }
+    // drop order: the outside handle `last` is dropped last; optionally some handles are kept
+    let last = rng.below(n);
+    let mut order: Vec<usize> = (0..n).filter(|&i| i != last).collect();
+    rng.shuffle(&mut order);
+    let keep = if rng.chance(1, 4) { 1 + rng.below(n.min(3)) } else { 0 };
+    if keep > 0 {
+        order.truncate(order.len().saturating_sub(keep - 1));
+    } else {
+        order.push(last);
+    }
+    for &d in &order {
+        b.ops.push(Op::Drop(d));
+    }
+    let desc = format!("{} weak{} last={} keep={}", desc, wmode, last, keep);
+    (b.ops, desc)
+}
+
+// ------------------------------------------------------------------------------------------------
+// G-script: destructor scripts layered over small shapes (C10, C11, C16)
+
+#[derive(Clone, Copy, PartialEq, Eq, Debug)]
+pub enum ScriptMode {
+    Reentrant,
+    Panic,
+    DeadClone,
+    DeadDrop,
+}
+
+fn split_build_and_drops(ops: Vec<Op>) -> (Vec<Op>, Vec<Op>) {
+    let pos = ops.iter().position(|o| matches!(o, Op::Drop(_))).unwrap_or(ops.len());
+    let drops = ops[pos..].to_vec();
+    let mut build = ops;
+    build.truncate(pos);
+    (build, drops)
+}
+
+/// Base shape for scripted histories: a small enumerated shape or a small structured family.
+/// Returns (build ops, drop ops, number of objects, stored-handle counts per object, description).
+fn base_shape(rng: &mut Rng, idx: u64, seed: u64, class_full: bool) -> (Vec<Op>, Vec<Op>, usize, String) {
+    if rng.chance(1, 2) {
+        let n = 2 + rng.below(2);
+        let sp = EnumSpace { n, pair_base: if n == 2 { 6 } else { 3 }, full_only: class_full };
+        let i = rng.next() % sp.total();
+        // only "no Weak" / "inside" placements keep weak slot numbering simple: accept all
+        let (ops, desc) = sp.ops(i);
+        let (b, d) = split_build_and_drops(ops);
+        (b, d, n, format!("enum[{}]", desc))
+    } else {
+        let (ops, desc) = family_ops(idx.wrapping_mul(31).wrapping_add(rng.next() % 1000), seed, if class_full { Class::Full } else { Class::Wf }, 6);
+        let n = ops.iter().take_while(|o| matches!(o, Op::New)).count();
+        let (b, d) = split_build_and_drops(ops);
+        (b, d, n, format!("family[{}]", desc))
+    }
+}
+
+/// Number of program strong slots / weak slots created by a static build list.
+fn count_slots(ops: &[Op]) -> (usize, usize) {
+    let mut h = 0;
+    let mut w = 0;
+    for o in ops {
+        match o {
+            Op::New | Op::Clone(_) | Op::Take(_, _) | Op::IncStrong(_) => h += 1,
+            Op::Downgrade(_) | Op::CloneWeak(_) | Op::WeakNew | Op::TakeWeak(_, _) => w += 1,
+            _ => {}
+        }
+    }
+    (h, w)
+}
+
+fn stored_targets(ops: &[Op], n_total: usize) -> Vec<Vec<usize>> {
+    // replay Store ops symbolically to know what each object holds (target = object of the slot)
+    let mut slot_target: Vec<usize> = vec![];
+    let mut held: Vec<Vec<usize>> = vec![vec![]; n_total];
+    let mut next_obj = 0usize;
+    for o in ops {
+        match o {
+            Op::New => {
+                slot_target.push(next_obj);
+                next_obj += 1;
+            }
+            Op::Clone(HRef::P(s)) => {
+                let t = slot_target[*s];
+                slot_target.push(t);
+            }
+            Op::Clone(HRef::S(ow, k)) => {
+                let t = held[*ow as usize][*k];
+                slot_target.push(t);
+            }
+            Op::Store(ow, s) => {
+                let t = slot_target[*s];
+                if (*ow as usize) < held.len() {
+                    held[*ow as usize].push(t);
+                }
+            }
+            _ => {}
+        }
+    }
+    held
+}
+
+pub fn script_ops(idx: u64, seed: u64, mode: ScriptMode) -> (Vec<Op>, String) {
+    let mut rng = Rng::new(crate::rng::mix(seed ^ 0x5C21, idx));
+    let full = matches!(mode, ScriptMode::DeadClone | ScriptMode::DeadDrop) || rng.chance(1, 2);
+    let (mut build, drops, n, bdesc) = base_shape(&mut rng, idx, seed, full);
+    let (mut hslots, mut wslots) = count_slots(&build);
+    let mut desc = bdesc;
+    match mode {
+        ScriptMode::Reentrant => {
+            // bystanders: Z (id n), ZZ (id n+1); second group G = {n+2, n+3} ring, one outside handle left
+            let z = n as ObjId;
+            let zz = n as ObjId + 1;
+            let g0 = n as ObjId + 2;
+            let g1 = n as ObjId + 3;
+            build.push(Op::New); // Z
+            let pz = hslots;
+            build.push(Op::New); // ZZ
+            let pzz = hslots + 1;
+            build.push(Op::New); // g0
+            let pg0 = hslots + 2;
+            build.push(Op::New); // g1
+            let pg1 = hslots + 3;
+            hslots += 4;
+            // ring g0 <-> g1, fully recorded
+            build.push(Op::Clone(HRef::P(pg1)));
+            build.push(Op::Adopt(HRef::P(pg0), HRef::P(hslots)));
+            build.push(Op::Store(g0, hslots));
+            hslots += 1;
+            build.push(Op::Clone(HRef::P(pg0)));
+            build.push(Op::Adopt(HRef::P(pg1), HRef::P(hslots)));
+            build.push(Op::Store(g1, hslots));
+            hslots += 1;
+            build.push(Op::Drop(pg1));
+            // Z holds an adopted handle to ZZ, and a second program handle to Z exists
+            build.push(Op::Clone(HRef::P(pzz)));
+            build.push(Op::Adopt(HRef::P(pz), HRef::P(hslots)));
+            build.push(Op::Store(z, hslots));
+            hslots += 1;
+            build.push(Op::Clone(HRef::P(pz)));
+            let pz2 = hslots;
+            hslots += 1;
+            // weak handles: to Z, to g0, and to every object of the base shape (dying peers)
+            build.push(Op::Downgrade(HRef::P(pz)));
+            let wz = wslots;
+            build.push(Op::Downgrade(HRef::P(pg0)));
+            let wg = wslots + 1;
+            wslots += 2;
+            let mut wpeer = vec![];
+            for i in 0..n {
+                build.push(Op::Downgrade(HRef::P(i)));
+                wpeer.push(wslots);
+                wslots += 1;
+            }
+            let _ = (zz, g1, hslots);
+            // scripts on every object of the base shape
+            let mut nact = 0;
+            for a in 0..n {
+                let k = rng.below(3);
+                for _ in 0..k {
+                    let when = if rng.chance(1, 2) { When::Pre } else { When::Post };
+                    let acts: Vec<Op> = match rng.below(14) {
+                        0 => vec![Op::New, Op::Store(z, crate::ops::rel(0))],
+                        1 => vec![Op::Clone(HRef::P(pz))],
+                        2 => vec![Op::Drop(pg0)], // last outside handle of the other group: nested collection
+                        3 => vec![Op::Drop(pz2)],
+                        4 => vec![Op::Clone(HRef::P(pzz)), Op::Adopt(HRef::P(pz), HRef::P(crate::ops::rel(0))), Op::Store(z, crate::ops::rel(0))],
+                        5 => vec![Op::Unadopt(HRef::P(pz), HRef::S(z, 0))],
+                        6 => vec![Op::Downgrade(HRef::P(pz))],
+                        7 => vec![Op::Upgrade(WRef::P(wz))],
+                        8 => vec![Op::Upgrade(WRef::P(wpeer[rng.below(n)]))], // dying peer (or survivor)
+                        9 => vec![Op::Upgrade(WRef::P(wg)), Op::Drop(crate::ops::rel(0))],
+                        10 => vec![Op::Unadopt(HRef::P(pz), HRef::S(z, 0)), Op::Take(z, 0), Op::Drop(crate::ops::rel(0))],
+                        11 => vec![Op::Clone(HRef::P(rng.below(n)))], // a handle the program may still hold to a base object
+                        12 => vec![Op::New, Op::Adopt(HRef::P(pz), HRef::P(crate::ops::rel(0))), Op::Store(z, crate::ops::rel(0)), Op::Clone(HRef::P(pz)), Op::Adopt(HRef::P(pzz), HRef::P(crate::ops::rel(0))), Op::Store(zz, crate::ops::rel(0))],
+                        _ => vec![Op::Adopt(HRef::P(pz), HRef::P(pz2)), Op::Unadopt(HRef::P(pz), HRef::P(pz2))],
+                    };
+                    for act in acts {
+                        build.push(Op::Script(a as ObjId, when, Box::new(act)));
+                        nact += 1;
+                    }
+                    build.push(Op::Script(a as ObjId, when, Box::new(Op::Nop)));
+                }
+            }
+            desc = format!("reentrant {} scripts={}", desc, nact);
+        }
+        ScriptMode::Panic => {
+            let a = rng.below(n);
+            let when = if rng.chance(1, 2) { When::Pre } else { When::Post };
+            // Weak handles to every object, kept by the program, to observe "dead" afterwards
+            for i in 0..n {
+                build.push(Op::Downgrade(HRef::P(i)));
+            }
+            build.push(Op::Script(a as ObjId, when, Box::new(Op::Panic)));
+            desc = format!("panic in #{} {:?} {}", a, when, desc);
+        }
+        ScriptMode::DeadClone | ScriptMode::DeadDrop => {
+            let held = stored_targets(&build, n);
+            // choose an acting object that stores at least one handle
+            let cands: Vec<usize> = (0..n).filter(|&i| !held[i].is_empty()).collect();
+            if let Some(&a) = rng.pick(&cands) {
+                let k = rng.below(held[a].len());
+                let act = if mode == ScriptMode::DeadClone { Op::CloneDead(k) } else { Op::DropDead(k) };
+                let when = When::Pre;
+                build.push(Op::Script(a as ObjId, when, Box::new(act)));
+                desc = format!("{:?} by #{} on stored handle {} (-> #{}) {}", mode, a, k, held[a][k], desc);
+            } else {
+                desc = format!("{:?} (no stored handle) {}", mode, desc);
+            }
+        }
+    }
+    build.extend(drops);
+    (build, desc)
 }
